@@ -595,7 +595,9 @@ class ExprMixin:
         res, raises = self.ev_list(list(node.elts), st)
         outs = list(raises)
         for s, vals in res:
-            outs.append(Out("val", s, self.new_list(s, vals)))
+            lv = self.new_list(s, vals)
+            lv.lit = list(vals)
+            outs.append(Out("val", s, lv))
         return outs
 
     def ev_Set(self, node, st):
